@@ -14,7 +14,7 @@ def make_scope(method='GET', raw_path='/', query='', headers=(), scheme='http', 
             have_host = True
         hdrs.append((n, value.encode('latin-1')))
     if include_host and not have_host:
-        default = (scheme == 'http' and port == 80) or (scheme == 'https' and port == 443)
+        default = (scheme in ('http', 'ws') and port == 80) or (scheme in ('https', 'wss') and port == 443)
         hdrs.insert(0, (b'host', (host if default else '%s:%d' % (host, port)).encode()))
     scope = {
         'type': 'http', 'asgi': {'version': '3.0', 'spec_version': spec_version}, 'http_version': http_version,
